@@ -160,7 +160,9 @@ where
 /// contract of `Line: Intersects<Coord>` (proved in unit c02_intersects: obligation C02.V.line_intersects_coord)
 pub trait Intersects<Rhs = Self> {
     spec fn meets(&self, rhs: &Rhs) -> bool;
+    spec fn meets_pre(&self, rhs: &Rhs) -> bool;
     fn intersects(&self, rhs: &Rhs) -> (r: bool)
+        requires self.meets_pre(rhs)
         ensures r == self.meets(rhs);
 }
 impl<T> Intersects<Coord<T>> for Line<T>
@@ -168,6 +170,7 @@ where
     T: GeoNum,
 {
     open spec fn meets(&self, rhs: &Coord<T>) -> bool { on_segment(pt(*rhs), pt(self.start), pt(self.end)) }
+    open spec fn meets_pre(&self, rhs: &Coord<T>) -> bool { true }
     #[verifier::external_body]
     fn intersects(&self, rhs: &Coord<T>) -> (r: bool) { unimplemented!() }
 }
@@ -197,6 +200,246 @@ where
             assert(cross(pt(self.start), pt(self.end), pt(self.start)) == 0) by (nonlinear_arith);
             assert(cross(pt(self.start), pt(self.end), pt(self.end)) == 0) by (nonlinear_arith);
         }
+//@end
+}
+
+// (the extracted body imports these names from their module path in geo)
+pub mod coordinate_position { pub use super::{CoordPos, CoordinatePosition}; }
+
+// ------------------------------------------------------------------ Polygon x Coord through the position
+impl<T> Intersects<Coord<T>> for Polygon<T>
+where
+    T: GeoNum,
+{
+    /// not FF*FF****: the coordinate is in the interior or on the boundary of the polygon
+    open spec fn meets(&self, p: &Coord<T>) -> bool { poly_pos(pt(*p), *self) != CoordPos::Outside }
+    open spec fn meets_pre(&self, p: &Coord<T>) -> bool { self.pos_pre(pt(*p)) }
+//@fn geo/src/algorithm/intersects/polygon.rs | impl<T> Intersects<Coord<T>> for Polygon<T> where T: GeoNum, | intersects | id=C02.V.polygon_intersects_coord
+//@end
+}
+
+pub trait Contains<Rhs = Self> {
+    spec fn holds(&self, rhs: &Rhs) -> bool;
+    spec fn holds_pre(&self, rhs: &Rhs) -> bool;
+    fn contains(&self, rhs: &Rhs) -> (r: bool)
+        requires self.holds_pre(rhs)
+        ensures r == self.holds(rhs);
+}
+impl<T> Contains<Coord<T>> for Polygon<T>
+where
+    T: GeoNum,
+{
+    /// T*****FF*: the coordinate is in the interior of the polygon
+    open spec fn holds(&self, coord: &Coord<T>) -> bool { poly_pos(pt(*coord), *self) == CoordPos::Inside }
+    open spec fn holds_pre(&self, coord: &Coord<T>) -> bool { self.pos_pre(pt(*coord)) }
+//@fn geo/src/algorithm/contains/polygon.rs | impl<T> Contains<Coord<T>> for Polygon<T> where T: GeoNum, | contains | id=C02.V.polygon_contains_coord
+//@end
+}
+
+// ------------------------------------------------------------------ LineString (OGC: boundary = the two end points unless closed)
+pub open spec fn on_ls<T: CoordNum>(p: P2, s: Seq<Coord<T>>) -> bool {
+    exists|k: int| 0 <= k < s.len() - 1 && #[trigger] on_seg_k(p, s, k)
+}
+pub open spec fn in_rect<T: CoordNum>(p: P2, r: Rect<T>) -> bool {
+    rmin(r).x.val() <= p.x && p.x <= rmax(r).x.val() && rmin(r).y.val() <= p.y && p.y <= rmax(r).y.val()
+}
+
+/// ASSUMED contracts of the callees (each decided elsewhere on bounded / lattice domains: c19 bounding boxes,
+/// c02_intersects Rect x Coord (proved), K harness c02_k_linestring_pos for LineString x Coord)
+pub trait BoundingRect<T: CoordNum> {
+    type Output;
+    fn bounding_rect(&self) -> Self::Output;
+}
+impl<T: CoordNum> BoundingRect<T> for LineString<T> {
+    type Output = Option<Rect<T>>;
+    #[verifier::external_body]
+    fn bounding_rect(&self) -> (r: Option<Rect<T>>)
+        ensures
+            self.0@.len() > 0 ==> r is Some,
+            r is Some ==> forall|i: int| 0 <= i < self.0@.len() ==> in_rect(pt(#[trigger] self.0@[i]), r->0),
+    { unimplemented!() }
+}
+impl<T> Intersects<Coord<T>> for Rect<T>
+where
+    T: GeoNum,
+{
+    open spec fn meets(&self, rhs: &Coord<T>) -> bool { in_rect(pt(*rhs), *self) }
+    open spec fn meets_pre(&self, rhs: &Coord<T>) -> bool { true }
+    #[verifier::external_body]
+    fn intersects(&self, rhs: &Coord<T>) -> (r: bool) { unimplemented!() }
+}
+impl<T> Intersects<Coord<T>> for LineString<T>
+where
+    T: GeoNum,
+{
+    open spec fn meets(&self, rhs: &Coord<T>) -> bool { on_ls(pt(*rhs), self.0@) }
+    open spec fn meets_pre(&self, rhs: &Coord<T>) -> bool { true }
+    #[verifier::external_body]
+    fn intersects(&self, rhs: &Coord<T>) -> (r: bool) { unimplemented!() }
+}
+impl<T: CoordNum> LineString<T> {
+//@fn geo-types/src/geometry/line_string.rs | impl<T: CoordNum> LineString<T> | is_closed | id=C18.V.is_closed | props=C18
+//@ret r
+//@spec
+    ensures r == closed(self.0@),
+//@before 1 `self.0.first()`
+    proof {
+        T::ax_obeys();
+        if self.0@.len() > 0 {
+            T::ax_cmp(self.0@[0].x, self.0@.last().x);
+            T::ax_cmp(self.0@[0].y, self.0@.last().y);
+        }
+    }
+//@end
+}
+impl<T: CoordNum> Line<T> {
+//@fn geo-types/src/geometry/line.rs | impl<T: CoordNum> Line<T> | new | id=C18.V.line_new | props=C18
+//@ret r
+//@spec
+    requires forall|c: C| call_requires(C::into, (c,)),
+    ensures call_ensures(C::into, (start,), r.start), call_ensures(C::into, (end,), r.end),
+//@end
+}
+
+/// a point on a segment whose end points are inside a rectangle is inside the rectangle
+proof fn lemma_on_segment_in_rect<T: CoordNum>(p: P2, a: P2, b: P2, r: Rect<T>)
+    requires on_segment(p, a, b), in_rect(a, r), in_rect(b, r)
+    ensures in_rect(p, r)
+{
+}
+
+impl<T> CoordinatePosition for LineString<T>
+where
+    T: GeoNum,
+{
+    type Scalar = T;
+    open spec fn boundary_hits(&self, p: P2) -> nat {
+        if !closed(self.0@) && (p == pt(self.0@[0]) || p == pt(self.0@.last())) { 1 } else { 0 }
+    }
+    open spec fn interior_has(&self, p: P2) -> bool {
+        on_ls(p, self.0@) && self.boundary_hits(p) == 0
+    }
+    /// at least two coordinates (the code's own debug_assert!)
+    open spec fn pos_pre(&self, p: P2) -> bool { self.0@.len() >= 2 }
+//@fn geo/src/algorithm/coordinate_position.rs | impl<T> CoordinatePosition for LineString<T> where T: GeoNum, | calculate_coordinate_position | id=C02.V.linestring_position
+//@before 1 `if self.0.len() < 2 {`
+        proof {
+            T::ax_obeys();
+            let s = self.0@;
+            let p = pt(*coord);
+            T::ax_cmp(coord.x, s[0].x); T::ax_cmp(coord.y, s[0].y);
+            T::ax_cmp(coord.x, s.last().x); T::ax_cmp(coord.y, s.last().y);
+            T::ax_cmp(s[0].x, s.last().x); T::ax_cmp(s[0].y, s.last().y);
+            // an end point of the line string lies on its first / last segment
+            assert(cross(pt(s[0]), pt(s[1]), pt(s[0])) == 0) by (nonlinear_arith);
+            assert(on_seg_k(pt(s[0]), s, 0));
+            let n = s.len() as int;
+            assert(cross(pt(s[n - 2]), pt(s[n - 1]), pt(s[n - 1])) == 0) by (nonlinear_arith);
+            assert(on_seg_k(pt(s[n - 1]), s, n - 2));
+            if n == 2 {
+                // two coordinates: the line string is the single segment 0
+                assert(on_ls(p, s) == on_seg_k(p, s, 0)) by {
+                    if on_ls(p, s) { let k = choose|k: int| 0 <= k < s.len() - 1 && #[trigger] on_seg_k(p, s, k); assert(k == 0); }
+                }
+                if pt(s[0]) == pt(s[1]) {
+                    assert(on_segment(p, pt(s[0]), pt(s[1])) == (p == pt(s[0]))) by {
+                        assert(cross(pt(s[0]), pt(s[0]), p) == 0) by (nonlinear_arith);
+                    }
+                }
+            }
+        }
+//@before 1 `if !self.bounding_rect().unwrap().intersects(coord) {`
+        proof {
+            let s = self.0@;
+            let p = pt(*coord);
+            // outside the bounding rectangle: on no segment
+            assert forall|r: Rect<T>| (forall|i: int| 0 <= i < s.len() ==> in_rect(pt(#[trigger] s[i]), r)) && !in_rect(p, r) implies !on_ls(p, s) by {
+                if on_ls(p, s) {
+                    let k = choose|k: int| 0 <= k < s.len() - 1 && #[trigger] on_seg_k(p, s, k);
+                    assert(in_rect(pt(s[k]), r) && in_rect(pt(s[k + 1]), r));
+                    lemma_on_segment_in_rect(p, pt(s[k]), pt(s[k + 1]), r);
+                }
+            }
+        }
+//@end
+}
+
+// ------------------------------------------------------------------ Multi*: the accumulate protocol over the members
+//@type geo-types/src/geometry/multi_polygon.rs | MultiPolygon
+//@type geo-types/src/geometry/multi_line_string.rs | MultiLineString
+
+/// number of the first k members whose boundary contains p
+pub open spec fn hits_upto<G: CoordinatePosition>(v: Seq<G>, p: P2, k: int) -> nat
+    decreases k
+{
+    if k <= 0 { 0 } else { hits_upto(v, p, k - 1) + v[k - 1].boundary_hits(p) }
+}
+pub open spec fn some_interior_upto<G: CoordinatePosition>(v: Seq<G>, p: P2, k: int) -> bool {
+    exists|i: int| 0 <= i < k && #[trigger] v[i].interior_has(p)
+}
+pub open spec fn all_pre<G: CoordinatePosition>(v: Seq<G>, p: P2) -> bool {
+    forall|i: int| 0 <= i < v.len() ==> (#[trigger] v[i]).pos_pre(p)
+}
+proof fn lemma_hits_monotone<G: CoordinatePosition>(v: Seq<G>, p: P2, j: int, k: int)
+    requires 0 <= j <= k
+    ensures hits_upto(v, p, j) <= hits_upto(v, p, k)
+    decreases k
+{
+    if j < k { lemma_hits_monotone(v, p, j, k - 1); }
+}
+
+impl<T> CoordinatePosition for MultiPolygon<T>
+where
+    T: GeoNum,
+{
+    type Scalar = T;
+    // the members are folded with the accumulate protocol: any member's interior; boundary hits are COUNTED
+    // (the mod-2 rule of the default method is then applied to the count -- see known finding D8 for what that
+    // means for polygons touching at a point)
+    open spec fn interior_has(&self, p: P2) -> bool { some_interior_upto(self.0@, p, self.0@.len() as int) }
+    open spec fn boundary_hits(&self, p: P2) -> nat { hits_upto(self.0@, p, self.0@.len() as int) }
+    open spec fn pos_pre(&self, p: P2) -> bool { all_pre(self.0@, p) }
+//@fn geo/src/algorithm/coordinate_position.rs | impl<T> CoordinatePosition for MultiPolygon<T> where T: GeoNum, | calculate_coordinate_position | id=C02.V.multipolygon_position
+//@loop 1 it
+            invariant
+                all_pre(self.0@, pt(*coord)),
+                it.snapshot@.remaining().len() == self.0@.len(),
+                forall|i: int| 0 <= i < self.0@.len() ==> *(#[trigger] it.snapshot@.remaining()[i]) == self.0@[i],
+                *old(boundary_count) + hits_upto(self.0@, pt(*coord), self.0@.len() as int) <= usize::MAX,
+                *is_inside == (*old(is_inside) || some_interior_upto(self.0@, pt(*coord), it.index@)),
+                *boundary_count == *old(boundary_count) + hits_upto(self.0@, pt(*coord), it.index@),
+//@before 1 `polygon.calculate_coordinate_position(coord, is_inside, boundary_count);`
+            proof {
+                let k = it.index@;
+                assert(*polygon == self.0@[k]);
+                lemma_hits_monotone(self.0@, pt(*coord), k + 1, self.0@.len() as int);
+            }
+//@end
+}
+
+impl<T> CoordinatePosition for MultiLineString<T>
+where
+    T: GeoNum,
+{
+    type Scalar = T;
+    open spec fn interior_has(&self, p: P2) -> bool { some_interior_upto(self.0@, p, self.0@.len() as int) }
+    open spec fn boundary_hits(&self, p: P2) -> nat { hits_upto(self.0@, p, self.0@.len() as int) }
+    open spec fn pos_pre(&self, p: P2) -> bool { all_pre(self.0@, p) }
+//@fn geo/src/algorithm/coordinate_position.rs | impl<T> CoordinatePosition for MultiLineString<T> where T: GeoNum, | calculate_coordinate_position | id=C02.V.multilinestring_position
+//@loop 1 it
+            invariant
+                all_pre(self.0@, pt(*coord)),
+                it.snapshot@.remaining().len() == self.0@.len(),
+                forall|i: int| 0 <= i < self.0@.len() ==> *(#[trigger] it.snapshot@.remaining()[i]) == self.0@[i],
+                *old(boundary_count) + hits_upto(self.0@, pt(*coord), self.0@.len() as int) <= usize::MAX,
+                *is_inside == (*old(is_inside) || some_interior_upto(self.0@, pt(*coord), it.index@)),
+                *boundary_count == *old(boundary_count) + hits_upto(self.0@, pt(*coord), it.index@),
+//@before 1 `line_string.calculate_coordinate_position(coord, is_inside, boundary_count);`
+            proof {
+                let k = it.index@;
+                assert(*line_string == self.0@[k]);
+                lemma_hits_monotone(self.0@, pt(*coord), k + 1, self.0@.len() as int);
+            }
 //@end
 }
 
